@@ -9,6 +9,8 @@ in random surroundings:
  * validator OUTCOMES: wherever a validator is consulted it accepts, rejects or TERMINATES WITH AN EXCEPTION (every exception
    class of ndn.types + Exception / TimeoutError / CancelledError / OSError; at once or after a suspension): only an ACCEPT lets
    anything through to the handler / the caller;
+ * Interest side, SEQUENCES on one application: a digest component that was right for one Interest re-used on packets with
+   other parameters / names / signature elements, in every order, with retransmissions (reuse_table, inject_reuse);
  * Interest side: every verdict x ApplicationParameters present x signature {none, DigestSha256 ok, DigestSha256 bad}
    x parameters-digest correct x route with/without its own validator x no route, in both front-ends, x every
    placement of a replacement of the application-wide validator (legacy app.int_validator) relative to the installation
@@ -54,10 +56,23 @@ RULE = ('Data side: verdict x latency table (6 resp. 9 verdict values x 8 latenc
         'if some outcome the history gives its validator is an accepting verdict (data-without-accepting-verdict); that the exception '
         'itself escapes from the task the library created (legacy / appv2 Interests, appv2 Data) or reaches the awaiting caller (legacy '
         'Data) is not judged; '
+        'SEQUENCES OF INTERESTS ON ONE APPLICATION, DIGEST COMPONENT RE-USED (both front-ends; one process, whatever the library keeps '
+        'between packets is carried over): a right Interest O (unsigned / signed, non-empty ApplicationParameters unique per case and '
+        'per Interest, so no digest was ever seen by the process before) and packets F carrying O\'s ParametersSha256DigestComponent '
+        'over other parameters (non-empty / empty / none + signature) x signature class {none, ok, bad} x name {same, sibling, deeper '
+        'route, other route}, in the orders O F / F O / O F F / O C F / O F C F / F O F (C = the very packet of O again, a '
+        'retransmission, RIGHT) / O P G F and O G P F (two right Interests, components crossed; G before the Interest it copies from); '
+        'every validator accepts, so only the digest check stands between F and a handler; in every second random interleaving '
+        '(placement and suspended families) each Interest takes with probability 0.35 the component of another right Interest of the '
+        'history or is its retransmission. Oracle unchanged (gate_oracle / susp_oracle): F has a wrong digest and never reaches a '
+        'handler nor a validator (delivered-unvalidated:...:digest_ok=0(reuse):...), C is delivered; '
         'plus the C03 random histories with all verdicts. non-trivial = the validator is consulted or a gate decision is taken; '
         'distinct by history')
 ASSUMPTIONS = ['validators are harness coroutines (verdict chosen by the history); the parameters digest / DigestSha256 '
-               'signature are computed by the real encoder and corrupted by flipping one bit',
+               'signature are computed by the real encoder and corrupted by flipping one bit, or (digest) replaced by the '
+               'digest component the real encoder computed for another Interest of the same history',
+               'non-empty ApplicationParameters carry a counter unique per case of the run and the Interest id: state a '
+               'library keeps per process (module level) cannot make the verdict on a case depend on the cases before it',
                'legacy front-end without a route validator: the application-wide int_validator is the library default '
                'sha256_digest_checker until a setdefault event assigns a harness validator to the documented attribute '
                'app.int_validator (and again after one restores the saved library default); appv2 has no application-wide '
@@ -235,6 +250,11 @@ def check_data(ctx, fe, h, tag):
     return same, m, r
 
 
+def digest_class(dok):
+    """'' for a right / bit-flipped digest; the way the digest component was obtained otherwise (part of the violation class)."""
+    return ('(' + dok.split(':')[0] + ')') if isinstance(dok, str) else ''
+
+
 ROUTES = [(A, True), (AB, False), (X, False)]          # attached prefixes: /a with a validator, /a/b and /x without
 PROBES = [A + (7,), AB + (7,), X, (9,), A, ABC]          # names of the Interests sent at every probe point
 
@@ -335,6 +355,7 @@ def gate_oracle(ctx, fe, h, r, site):
         if ev[0] != 'interest':
             continue
         _, kk, n, hp, sig, dok, v, _t = ev
+        how, dok = digest_class(dok), P.dok_true(dok)
         route = py_lpm(table, n)
         plain = (not hp) and sig == 0
         if route is None:
@@ -345,7 +366,7 @@ def gate_oracle(ctx, fe, h, r, site):
             continue
         own = bool(ctx.call([4, P.fe_num(fe), route[1], P.m_history(fe, h[:j])]))
         src = 'route' if route[1] else ('app-default' if own else 'none')
-        cls = f'params={int(hp)}:sig={sig}:digest_ok={int(dok)}:validator={src}:verdict={v}'
+        cls = f'params={int(hp)}:sig={sig}:digest_ok={int(dok)}{how}:validator={src}:verdict={v}'
         allowed = ctx.call([3, P.fe_num(fe), own, [kk, list(n), hp, sig, dok, P.m_verdict(fe, v)]])
         if kk in called and not allowed:
             ctx.violation(site, 'delivered-unvalidated:' + cls,
@@ -369,6 +390,8 @@ def gate_oracle(ctx, fe, h, r, site):
                               f'Interest {kk}: the validator in force is {want or "the library default"}, '
                               f'the application-supplied validators consulted were {got}', case)
         ctx.stat(f'{fe}.in-force.{src}')
+        if how:
+            ctx.stat(f'{fe}.digest{how}.' + ('handler-called' if kk in called else 'dropped'))
         if P.is_raise(v) and kk in who:
             ctx.stat(f'{fe}.interest-validator-raised.{src}.' + ('handler-called' if kk in called else 'dropped'))
 
@@ -405,6 +428,84 @@ def interest_table(ctx, fe, only=None):
                                   'interest': {'params': hp, 'sig': sig, 'digest_ok': dok, 'verdict': v},
                                   'delivered': sorted({kk for _, kk in r['handler_calls']})},
                                  f'{fe}.interest.{scheme}.params={int(hp)}.sig={sig}.dok={int(dok)}')
+
+
+# =================================================================================================
+# SEQUENCES of incoming Interests on one application: a digest component that was right once is used again
+# =================================================================================================
+# "... is dropped unless its parameters digest is correct" speaks about EVERY Interest, whatever the application received
+# before it.  One application (one process: whatever the library remembers between packets is carried over) receives a
+# right Interest O (non-empty ApplicationParameters that no case of this run has used before, unsigned / signed) and
+# packets F that carry O's ParametersSha256DigestComponent over other parameters / another name / other signature
+# elements - so their digest is wrong - in every order, with repeats and retransmissions (C = O's very packet again, right).
+R_ROUTES = [(A, True), (AB, False), (X, True)]
+R_ORIG_NAME = A + (7,)
+R_NAMES = {'same-name': A + (7,), 'sibling': A + (8,), 'deeper-route': AB + (7,), 'other-route': X + (7,)}
+R_ORIG = [(True, 0), (True, 1)]                                    # (params, signature class) of the right Interest
+R_FORGED = [(True, 0), (True, 1), (2, 0), (False, 1), (True, 2), (2, 1)]     # ... of the packet carrying the re-used component
+R_ORDERS = {
+    'right-then-forged': 'OF',
+    'forged-then-right': 'FO',
+    'right-forged-forged': 'OFF',
+    'right-retransmitted-forged': 'OCF',
+    'right-forged-retransmitted-forged': 'OFCF',
+    'forged-right-forged': 'FOF',
+    'two-rights-crossed': 'OPGF',          # P: a second right Interest (other route); G re-uses P's component, F re-uses O's
+    'two-rights-forged-between': 'OGPF',   # G comes BEFORE the right Interest whose component it carries
+}
+
+
+def reuse_history(fe, order, o_attrs, f_attrs, f_name):
+    ok = P.PASS[fe]                 # every validator accepts: only the digest check stands between F and a handler
+    h = [('attach', p, hv, 10) for p, hv in R_ROUTES]
+    at = {c: order.index(c) for c in 'OP' if c in order}
+    t = 20
+    for k, c in enumerate(order):
+        t += 10
+        if c == 'O':
+            h.append(('interest', k, R_ORIG_NAME, o_attrs[0], o_attrs[1], True, ok, t))
+        elif c == 'P':
+            h.append(('interest', k, X + (9,), True, 1 - o_attrs[1], True, ok, t))
+        elif c == 'C':
+            h.append(('interest', k, R_ORIG_NAME, o_attrs[0], o_attrs[1], 'copy:%d' % at['O'], ok, t))
+        else:
+            h.append(('interest', k, f_name, f_attrs[0], f_attrs[1], 'reuse:%d' % at['O' if c == 'F' else 'P'], ok, t))
+    return h
+
+
+def reuse_table(ctx, fe):
+    site = ('appv2.NDNApp._on_interest' if fe == 'v2' else 'app.NDNApp._on_interest')
+    for oname, order in R_ORDERS.items():
+        for o_attrs in R_ORIG:
+            for f_attrs in R_FORGED:
+                for nname, f_name in R_NAMES.items():
+                    h = reuse_history(fe, order, o_attrs, f_attrs, f_name)
+                    m = P.run_model(ctx, fe, h)
+                    r = P.canon_impl(fe, P.run_impl(fe, h))
+                    P.compare(ctx, 'on_interest', fe, h, m, r)
+                    gate_oracle(ctx, fe, h, r, site)
+                    ctx.case((fe, 'reuse', oname, o_attrs, f_attrs, nname), True,
+                             {'frontend': fe, 'order': oname, 'right': o_attrs, 'forged': f_attrs, 'forged_name': nname,
+                              'delivered': sorted({kk for _, kk in r['handler_calls']})},
+                             f'{fe}.interest.digest-reuse.{oname}')
+
+
+def inject_reuse(rng, h, p=0.35):
+    """Random histories: with probability p an Interest takes the digest component of ANOTHER Interest of the history
+    (earlier or later) whose digest is right and whose parameters are non-empty, hence unique - or is that packet again."""
+    ints = [ev for ev in h if ev[0] in ('interest', 'arrive')]
+    mod = {ev[1] for ev in ints if rng.random() < p}
+    cands = [ev for ev in ints if ev[1] not in mod and ev[3] is True and ev[5] is True]
+    out = []
+    for ev in h:
+        if ev[0] in ('interest', 'arrive') and ev[1] in mod and cands:
+            c = rng.choice(cands)
+            if rng.random() < 0.25:
+                ev = ev[:2] + (c[2], c[3], c[4], 'copy:%d' % c[1]) + ev[6:]
+            elif ev[3] or ev[4]:
+                ev = ev[:5] + ('reuse:%d' % c[1],) + ev[6:]
+        out.append(ev)
+    return out
 
 
 def rand_gate_history(rng, fe):
@@ -445,8 +546,10 @@ def rand_gate_history(rng, fe):
 
 def random_gate(ctx, fe, n):
     site = ('appv2.NDNApp._on_interest' if fe == 'v2' else 'app.NDNApp._on_interest')
-    for _ in range(n):
+    for j in range(n):
         h = rand_gate_history(ctx.rng, fe)
+        if j % 2:
+            h = inject_reuse(ctx.rng, h)
         m = P.run_model(ctx, fe, h)
         r = P.canon_impl(fe, P.run_impl(fe, h))
         P.compare(ctx, 'on_interest', fe, h, m, r)
@@ -583,10 +686,10 @@ def m_gevents(fe, h):
             out.append([2, ev[1]])
         elif tag == 'arrive':
             _, k, n, hp, sig, dok, _t = ev
-            out.append([3, [k, list(n), hp, sig, dok, 0], 1])
+            out.append([3, [k, list(n), hp, sig, P.dok_true(dok), 0], 1])
         elif tag == 'interest':
             _, k, n, hp, sig, dok, v, _t = ev
-            out.append([3, [k, list(n), hp, sig, dok, P.m_verdict(fe, v)], 0])
+            out.append([3, [k, list(n), hp, sig, P.dok_true(dok), P.m_verdict(fe, v)], 0])
         elif tag == 'ivdone':
             out.append([4, ev[1], P.m_verdict(fe, ev[2])])
     return out
@@ -635,7 +738,8 @@ def susp_oracle(ctx, fe, h, r, site):
                 i['verdict'] = ev[2]
                 i['table_at_verdict'] = dict(table)
     for kk, i in sorted(info.items()):
-        n, hp, sig, dok = i['name'], i['hp'], i['sig'], i['dok']
+        n, hp, sig, dok = i['name'], i['hp'], i['sig'], P.dok_true(i['dok'])
+        how = digest_class(i['dok'])
         plain = (not hp) and sig == 0
         needs = (hp or sig != 0) if fe == 'v2' else (sig != 0)
         got = delivered.get(kk, [])
@@ -648,7 +752,7 @@ def susp_oracle(ctx, fe, h, r, site):
             return own, bool(ctx.call([3, P.fe_num(fe), own, [kk, list(n), hp, sig, dok, mv]]))
         if len(got) > 1:
             ctx.violation(site, 'delivered-twice', f'Interest {kk} reached handlers {got}', case)
-        cls = f'params={int(hp)}:sig={sig}:digest_ok={int(dok)}:verdict={v}'
+        cls = f'params={int(hp)}:sig={sig}:digest_ok={int(dok)}{how}:verdict={v}'
         for hd in got:
             pfx, hasv = att[hd]
             arrival = i['route'] is not None and i['route'][1] == hd
@@ -682,6 +786,8 @@ def susp_oracle(ctx, fe, h, r, site):
         if plain and kk in who:
             ctx.violation(site, 'validator-consulted-for-plain', 'a plain Interest was handed to a validator', case)
         ctx.stat(f'{fe}.suspended.' + ('no-route' if i['route'] is None else 'delivered' if got else 'dropped'))
+        if how:
+            ctx.stat(f'{fe}.digest{how}.' + ('handler-called' if got else 'dropped'))
         if P.is_raise(v) and kk in who:
             ctx.stat(f'{fe}.interest-validator-raised.' + ('suspended.' if i['suspends'] else 'at-once.')
                      + ('handler-called' if got else 'dropped'))
@@ -741,8 +847,10 @@ def suspended_table(ctx, fe):
 
 
 def random_susp(ctx, fe, n):
-    for _ in range(n):
+    for j in range(n):
         h = rand_susp_history(ctx.rng, fe)
+        if j % 2:
+            h = inject_reuse(ctx.rng, h)
         run_susp(ctx, fe, h, (fe, 'susp-rand', tuple(map(repr, h))), {'history': h}, f'{fe}.suspended.random')
 
 
@@ -754,6 +862,7 @@ def run(ctx):
                      names, ['FAIL', 'TIMEOUT', 'SILENCE', 'PASS', 'ALLOW_BYPASS'], names)
     for fe in ('v2', 'v1'):
         interest_table(ctx, fe)
+        reuse_table(ctx, fe)
         random_gate(ctx, fe, ctx.n(200, 6000))
         suspended_table(ctx, fe)
         random_susp(ctx, fe, ctx.n(300, 6000))
